@@ -182,7 +182,7 @@ int main( int argc, char** argv )
    mkdir( "build/scratch", 0777 );
    mkdir( scratch.c_str(), 0777 );
 
-   const std::string sigma = "ab\n";
+   const std::string sigma = "a\r\nb";
    const int L = thorough ? 5 : 4;
    std::vector< std::string > inputs;
    for_inputs( sigma, L, [ & ]( const std::string& s ) { inputs.push_back( s ); } );
@@ -302,6 +302,30 @@ int main( int argc, char** argv )
                   cmp( "cstream_input", observe( in ) );
                }
                std::fclose( f );
+            }
+            // stock readers behind a tiny buffer: a request that ends exactly at the end of the buffer must not make the library
+            // ask the reader for zero bytes (istream / cstream readers report that as an I/O error)
+            for( std::size_t mx = 1; mx <= 3; ++mx ) {
+               {
+                  std::istringstream ss( s );
+                  p::istream_input< p::eol::lf_crlf, 1 > in( ss, mx, "src" );
+                  const Obs o = observe( in );
+                  ++vf::st.evaluations;
+                  X.begin( {} );
+                  if( o.kind != 3 && !o.same( ref ) ) report( "result differs from memory_input", "istream_input chunk 1, small maximum", 5, s, ref, o, wname );
+               }
+               {
+                  std::string z = s;
+                  std::FILE* f = z.empty() ? std::fopen( "/dev/null", "rb" ) : fmemopen( z.data(), z.size(), "rb" );
+                  {
+                     p::cstream_input< p::eol::lf_crlf, 1 > in( f, mx, "src" );
+                     const Obs o = observe( in );
+                     ++vf::st.evaluations;
+                     X.begin( {} );
+                     if( o.kind != 3 && !o.same( ref ) ) report( "result differs from memory_input", "cstream_input chunk 1, small maximum", 5, s, ref, o, wname );
+                  }
+                  std::fclose( f );
+               }
             }
             buffer_runs< 1 >( "buffer_input chunk 1, ample maximum", 16, false, thorough ? 3 : 2, 5, s, ref, wname );
             buffer_runs< 2 >( "buffer_input chunk 2, ample maximum", 16, false, thorough ? 3 : 2, 5, s, ref, wname );
